@@ -245,6 +245,8 @@ func decide(c jCase) *rp.Fail {
 				fail = f
 				return
 			}
+			gc := got
+			hold("Card", func() string { return api.CardRec(gc).String() })
 			want := api.CardRec(card)
 			if c.DoorsNil {
 				want["door1"], want["door2"], want["door3"], want["door4"] = "0", "0", "0", "0"
@@ -253,6 +255,11 @@ func decide(c jCase) *rp.Fail {
 				fail = rp.Failf("types.Card/roundtrip", "%s decoded as %v, want %v", js, g, want)
 			}
 		case "TimeProfile":
+			if c.N[3]%4 == 0 {
+				// an unrelated, smaller profile decoded just before (its segments must not leak into the next decode)
+				var other types.TimeProfile
+				json.Unmarshal([]byte(`{"id":7,"segments":[{"start":"01:23","end":"04:56"}]}`), &other)
+			}
 			p := types.TimeProfile{ID: c.N[0], LinkedProfileID: c.N[1], From: c.date1(), To: c.date2(), Weekdays: c.weekdays(), Segments: c.segments()}
 			var got types.TimeProfile
 			js, f := roundtrip("types.TimeProfile", p, &got)
@@ -260,6 +267,8 @@ func decide(c jCase) *rp.Fail {
 				fail = f
 				return
 			}
+			gp := got
+			hold("TimeProfile", func() string { return fmt.Sprint(gp.ID, c.weekTruth(gp.Weekdays), segText(gp.Segments)) })
 			if got.ID != p.ID || got.LinkedProfileID != p.LinkedProfileID || api.DateText(got.From) != api.DateText(p.From) || api.DateText(got.To) != api.DateText(p.To) ||
 				c.weekTruth(got.Weekdays) != c.wantWeek() || segText(got.Segments) != segText(p.Segments) {
 				fail = rp.Failf("types.TimeProfile/roundtrip", "%s decoded as %+v (weekdays %s, segments %s)", js, got, c.weekTruth(got.Weekdays), segText(got.Segments))
@@ -288,6 +297,8 @@ func decide(c jCase) *rp.Fail {
 				fail = f
 				return
 			}
+			gt := got
+			hold("Task", func() string { return fmt.Sprint(gt.Task, gt.Door, c.weekTruth(gt.Weekdays), gt.Start) })
 			if got.Task != task.Task || got.Door != task.Door || api.DateText(got.From) != api.DateText(task.From) || api.DateText(got.To) != api.DateText(task.To) ||
 				c.weekTruth(got.Weekdays) != c.wantWeek() || !got.Start.Equals(task.Start) || got.Cards != task.Cards {
 				fail = rp.Failf("types.Task/roundtrip", "%s decoded as %+v", js, got)
@@ -495,7 +506,40 @@ func decideReject(c jCase) *rp.Fail {
 	return nil
 }
 
+// held results: values decoded earlier must not change when later values are decoded (shared maps, pooled buffers)
+type heldValue struct {
+	what  string
+	canon func() string
+	was   string
+}
+
+var held []heldValue
+
+func hold(what string, canon func() string) {
+	if len(held) >= 32 {
+		held = held[1:]
+	}
+	held = append(held, heldValue{what, canon, canon()})
+}
+
+func recheckHeld() *rp.Fail {
+	for _, h := range held {
+		if now := h.canon(); now != h.was {
+			held = nil
+			return rp.Failf("types/decoded-value-changed-later", "a %s decoded earlier changed when later values were decoded:\n  then: %s\n  now:  %s", h.what, h.was, now)
+		}
+	}
+	return nil
+}
+
 func check(c jCase) *rp.Fail {
+	if f := checkInner(c); f != nil {
+		return f
+	}
+	return recheckHeld()
+}
+
+func checkInner(c jCase) *rp.Fail {
 	class := "roundtrip/" + c.Type
 	nt := true
 	if c.Reject {
